@@ -50,6 +50,8 @@ def check(ctx, rep, tier):
     _typing(ctx, rep)
     _log_domain(ctx, rep)
     report_undecided(rep, eng)
+    for (w_, c_, why_) in sorted(getattr(eng.interp, "cal_unknown", {}).values()):
+        rep.undecided("no-raise", c_, w_, why_)
     rep.count("rules", len(ctx.rb.rules), 40)
     rep.count("rule_runs", len(eng.runs), 100)
     rep.count("paths", sum(len(r.paths) for r in eng.runs.values()), 500)
@@ -544,20 +546,32 @@ def _fallback(ctx, rep):
     lm = ctx.imod("ctparse.loader")
     f = lm.func("load_default_scorer")
     sm = ctx.imod("ctparse.scorer")
-    scorers = set()
+    scorers = {"Scorer"}
+    bases = {}
     for mn in ("ctparse.scorer", "ctparse.nb_scorer"):
         m = ctx.imod(mn)
         for cn, c in m.classes.items():
-            for b in c.bases:
-                if norm(b) == "Scorer":
-                    scorers.add(cn)
+            bases[cn] = {norm(b).split(".")[-1] for b in c.bases}
+    changed = True
+    while changed:          # subclasses of Scorer, directly or through intermediate classes
+        changed = False
+        for cn, bs in bases.items():
+            if cn not in scorers and bs & scorers:
+                scorers.add(cn)
+                changed = True
     rets = [r for r in ast.walk(f) if isinstance(r, ast.Return)]
     rep.count("loader_returns", len(rets), 2)
     for r in rets:
         v = r.value
         ok = isinstance(v, ast.Call) and e1.callee_name(v.func) in scorers
-        rep.add("fallback", "{}::load_default_scorer::return {}".format(lm.rel, norm(v) if v else "None"),
-                lm.where(r), ok, "" if ok else "does not return a Scorer instance", nontrivial=False)
+        cons = "{}::load_default_scorer::return {}".format(lm.rel, norm(v) if v else "None")
+        known_other = v is None or isinstance(v, ast.Constant) or (
+            isinstance(v, ast.Call) and e1.callee_name(v.func) in bases and e1.callee_name(v.func) not in scorers)
+        if ok or known_other:
+            rep.add("fallback", cons, lm.where(r), ok, "" if ok else "does not return a Scorer instance",
+                    nontrivial=False)
+        else:
+            rep.undecided("fallback", cons, lm.where(r), "the returned value is not recognised as a Scorer instance")
     has_test = any(isinstance(t, ast.If) and "exists" in norm(t.test) for t in ast.walk(f))
     rep.add("fallback", lm.rel + "::load_default_scorer::existence-test", lm.where(f), has_test,
             "" if has_test else "model file is opened without an existence test (missing file raises at import)")
@@ -591,11 +605,35 @@ def _typing(ctx, rep):
             ok_s = subj is not None and _is_str_expr(f, subj, set())
             ok_l = labels is not None and _is_label_list(cm, f, labels)
             site = "{}::{}::CTParse(...)".format(cm.rel, qual)
-            rep.add("result-typing", site + " subject", cm.where(c), ok_s,
-                    "" if ok_s else "subject argument {} is not provably a str".format(norm(subj) if subj else "-"))
-            rep.add("result-typing", site + " labels", cm.where(c), ok_l,
-                    "" if ok_l else "labels argument {} is not the label helper's list".format(
-                        norm(labels) if labels else "-"))
+            # only a value that is certainly of another kind is a violation; an expression this
+            # clause cannot type is not decided
+            if ok_s or _certainly_not(subj, str):
+                rep.add("result-typing", site + " subject", cm.where(c), ok_s,
+                        "" if ok_s else "subject argument {} is not a str".format(norm(subj) if subj else "-"))
+            else:
+                rep.undecided("result-typing", site + " subject", cm.where(c),
+                              "subject argument {} is not recognised as a str expression".format(norm(subj)[:60]))
+            if ok_l or _certainly_not(labels, list):
+                rep.add("result-typing", site + " labels", cm.where(c), ok_l,
+                        "" if ok_l else "labels argument {} is not a list of strings".format(
+                            norm(labels) if labels else "-"))
+            else:
+                rep.undecided("result-typing", site + " labels", cm.where(c),
+                              "labels argument {} is not recognised as the label helper's list".format(
+                                  norm(labels)[:60]))
+
+
+def _certainly_not(e, kind):
+    """the expression is a literal of another kind (or missing)"""
+    if e is None:
+        return True
+    if isinstance(e, ast.Constant):
+        return not isinstance(e.value, kind)
+    if kind is str:
+        return isinstance(e, (ast.List, ast.Tuple, ast.Dict, ast.Set, ast.ListComp, ast.DictComp, ast.SetComp))
+    if kind is list:
+        return isinstance(e, (ast.Tuple, ast.Dict, ast.Set, ast.DictComp, ast.SetComp, ast.JoinedStr))
+    return False
 
 
 def _assignments(f, name, before=None):
@@ -649,6 +687,10 @@ def _is_str_expr(f, e, seen):
 def _is_label_list(cm, f, e):
     if isinstance(e, ast.Name):
         vals = _assignments(f, e.id)
+        params = {x.arg: x for x in f.args.args + f.args.kwonlyargs}
+        if not vals and e.id in params and params[e.id].annotation is not None:
+            # a parameter declared as a list of strings (the labels handed in by the caller)
+            return norm(params[e.id].annotation).replace("typing.", "") in ("List[str]", "list[str]")
         return bool(vals) and all(_is_label_list(cm, f, v) for v in vals)
     if isinstance(e, ast.Call) and isinstance(e.func, ast.Name):
         g = cm.funcs.get(e.func.id)
@@ -686,7 +728,7 @@ def _log_domain(ctx, rep):
             if isinstance(a, ast.BinOp) and isinstance(a.op, ast.Div):
                 num, den = a.left, a.right
                 ok_den = norm(den).startswith("len(") and "txt" in norm(den)
-                ok_num = _is_span_len(f, num)
+                ok_num = _is_span_len(f, num, ctx)
                 ok = ok_den and ok_num
                 if not ok_den:
                     detail = "denominator {} is not the text length".format(norm(den))
@@ -694,16 +736,50 @@ def _log_domain(ctx, rep):
                     detail = "numerator {} is not a span length".format(norm(num))
             else:
                 detail = "argument {} is not a quotient of lengths".format(norm(a) if a is not None else "-")
-            rep.add("log-domain", "{}::{}::{}".format(nm.rel, qual, norm(c)), nm.where(c), ok, detail)
+            cons = "{}::{}::{}".format(nm.rel, qual, norm(c))
+            if ok or _certainly_not_positive(f, a):
+                rep.add("log-domain", cons, nm.where(c), ok, detail)
+            else:
+                # an argument this clause cannot classify is not a violation
+                rep.undecided("log-domain", cons, nm.where(c), detail + " (not recognised)")
     rep.count("log_calls", n, 2)
 
 
-def _is_span_len(f, e):
+def _certainly_not_positive(f, a):
+    """log of a constant <= 0, of a difference of two equal things, of a count that starts at 0"""
+    if a is None:
+        return True
+    if isinstance(a, ast.Constant):
+        return not (isinstance(a.value, (int, float)) and a.value > 0)
+    if isinstance(a, ast.BinOp) and isinstance(a.op, ast.Div):
+        n = a.left
+        if isinstance(n, ast.Constant):
+            return not (isinstance(n.value, (int, float)) and n.value > 0)
+        if isinstance(n, ast.BinOp) and isinstance(n.op, ast.Sub) and norm(n.left) == norm(n.right):
+            return True
+        # a difference of two lengths (other than end - start of a span) can be zero
+        if isinstance(n, ast.BinOp) and isinstance(n.op, ast.Sub) and \
+                all(isinstance(x, ast.Call) and e1.callee_name(x.func) == "len" for x in (n.left, n.right)):
+            return True
+    return False
+
+
+def _is_span_len(f, e, ctx=None, depth=0):
     if isinstance(e, ast.Call) and e1.callee_name(e.func) == "len":
         return True
+    if isinstance(e, ast.Call) and ctx is not None and depth < 3 and not e.args:
+        # a package function / method that returns a span length
+        nm_ = e1.callee_name(e.func)
+        cands = []
+        for mn, m in ctx.model.mods.items():
+            if mn.startswith("ctparse"):
+                cands.extend(fn for q, fn in m.funcs.items() if q == nm_ or q.endswith("." + str(nm_)))
+        if len(cands) == 1:
+            rets = [r.value for r in ast.walk(cands[0]) if isinstance(r, ast.Return) and r.value is not None]
+            return bool(rets) and all(_is_span_len(cands[0], r, ctx, depth + 1) for r in rets)
     if isinstance(e, ast.Name):
         vals = _assignments(f, e.id)
-        return bool(vals) and all(_is_span_len(f, v) for v in vals)
+        return bool(vals) and all(_is_span_len(f, v, ctx, depth) for v in vals)
     if isinstance(e, ast.BinOp) and isinstance(e.op, ast.Sub):
         return norm(e.left).endswith(".mend") and norm(e.right).endswith(".mstart")
     if isinstance(e, ast.Attribute) and e.attr == "max_covered_chars":
